@@ -19,7 +19,10 @@ NEVER = float(0xFFFFFFFF)
 
 
 class SMModel:
-    def __init__(self, cfg, durations, clock, exact=True, asm=False):
+    def __init__(self, cfg, durations, clock, exact=True, asm=False, hooks=None):
+        # hooks (optional): an object with on_call(state, tm, state_tm, initial, in_engagement, started) -> action or None
+        # and on_done(); used when the caller wants to act *while* the state function runs (embedded machines)
+        self.hooks = hooks
         self.states = {s["name"]: s for s in cfg["states"]}
         self.first = cfg["first"]
         self.default = cfg.get("default")
@@ -54,7 +57,10 @@ class SMModel:
         self.cs = name
 
     def _done(self):
-        self.events.append(("DONE",))
+        if self.hooks is not None:
+            self.hooks.on_done()
+        else:
+            self.events.append(("DONE",))
         self.cur = None
         self.executing = False
         self.cs = ""
@@ -152,8 +158,11 @@ class SMModel:
                 self.entry = entry_at
                 self.expires = entry_at + self._duration(st)
             in_eng = self.executing
-            self.events.append(("CALL", st, tm, tm - self.entry, initial, in_eng, started))
-            act = acts.pop(0) if acts else None
+            if self.hooks is not None:
+                act = self.hooks.on_call(st, tm, tm - self.entry, initial, in_eng, started)
+            else:
+                self.events.append(("CALL", st, tm, tm - self.entry, initial, in_eng, started))
+                act = acts.pop(0) if acts else None
             if st == self.default:
                 act = None
             if act:
